@@ -681,3 +681,10 @@ impl<T> CtlTwinThreads<T> {
     }
   }
 }
+
+// ---------------------------------------------------------------- C10
+pub struct CtlAbBa { a: MutArc<i32>, b: MutArc<String> }
+impl CtlAbBa {
+  pub fn ab(&self) -> usize { let x = self.a.rc_deref_mut(); let y = self.b.rc_deref_mut(); *x as usize + y.len() }
+  pub fn ba(&self) -> usize { let y = self.b.rc_deref_mut(); let x = self.a.rc_deref_mut(); *x as usize + y.len() }
+}
